@@ -44,6 +44,7 @@ type Engine struct {
 	impls         map[string]*Contract   // "fn as iface" -> implements directive
 	footprints    map[string][]string    // opaque spec function -> heap names its body reads
 	fpBusy        map[string]bool
+	immutable     map[string]bool // heap names of fields never written after construction (checked syntactically)
 	trustedList   []string
 	contractFiles []string
 
@@ -74,7 +75,7 @@ var loadPatterns = []string{
 func NewEngine(repo string) (*Engine, error) {
 	e := &Engine{repo: repo, u: NewUniverse(), contracts: map[string]*Contract{}, loopContracts: map[string]*Contract{},
 		specFuns: map[string]*Contract{}, ghostVars: map[string]Sort{}, specSorts: map[string]Sort{}, specAccessors: map[string]accInfo{},
-		chanInvs: map[string]*Contract{}, callbacks: map[string]*Contract{}, callsites: map[string][]*Contract{}, impls: map[string]*Contract{}, footprints: map[string][]string{}, fpBusy: map[string]bool{}, heapSortHint: map[string]Sort{},
+		chanInvs: map[string]*Contract{}, callbacks: map[string]*Contract{}, callsites: map[string][]*Contract{}, impls: map[string]*Contract{}, footprints: map[string][]string{}, fpBusy: map[string]bool{}, immutable: map[string]bool{}, heapSortHint: map[string]Sort{},
 		modsMemo: map[*ssa.Function]map[string]bool{}, modsBusy: map[*ssa.Function]bool{}, globals: map[*ssa.Global]int{},
 		funcs: map[*ssa.Function]int{}, ifaceTypes: map[string]types.Type{}, cardSorts: map[Sort]bool{}, ufs: map[string]string{},
 		allFns: map[string]*ssa.Function{}, spkgs: map[string]*ssa.Package{}}
@@ -254,6 +255,34 @@ func (e *Engine) LoadContracts(specDir string) error {
 				return err
 			}
 			e.callsites[caller+"|"+callee] = append(e.callsites[caller+"|"+callee], c)
+		case "immutable":
+			// immutable T.f1, f2, ...
+			i := strings.Index(c.Name, ".")
+			if i < 0 {
+				return fmt.Errorf("%s:%d: immutable needs T.field", c.File, c.Line)
+			}
+			t := e.lookupTypeIn(strings.TrimSpace(c.Name[:i]), c.Pkg)
+			if t == nil {
+				return fmt.Errorf("%s:%d: immutable: unknown type %s", c.File, c.Line, c.Name[:i])
+			}
+			_, st := derefStruct(t)
+			if st == nil {
+				return fmt.Errorf("%s:%d: immutable: %s is not a struct", c.File, c.Line, c.Name[:i])
+			}
+			for _, fn := range strings.Split(c.Name[i+1:], ",") {
+				fn = strings.TrimSpace(fn)
+				found := false
+				for k := 0; k < st.NumFields(); k++ {
+					if st.Field(k).Name() == fn {
+						found = true
+						e.heapSortHint["F_"+TypeKey(t)+"_"+sanitize(fn)] = ArrSort(SInt, e.u.SortOf(st.Field(k).Type()))
+					}
+				}
+				if !found {
+					return fmt.Errorf("%s:%d: immutable: no field %s in %s", c.File, c.Line, fn, c.Name[:i])
+				}
+				e.immutable["F_"+TypeKey(t)+"_"+sanitize(fn)] = true
+			}
 		case "implements":
 			fk, err := e.resolveFuncName(c)
 			if err != nil {
@@ -273,6 +302,38 @@ func (e *Engine) LoadContracts(specDir string) error {
 				return err
 			}
 			e.callbacks[key] = c
+		}
+	}
+	return e.checkImmutable()
+}
+
+// checkImmutable: a field declared immutable may only be stored to in the function that allocated the object.
+func (e *Engine) checkImmutable() error {
+	if len(e.immutable) == 0 {
+		return nil
+	}
+	for _, fn := range e.allFns {
+		if fn.Pkg == nil && fn.Parent() == nil {
+			continue
+		}
+		for _, b := range fn.Blocks {
+			for _, ins := range b.Instrs {
+				st, ok := ins.(*ssa.Store)
+				if !ok {
+					continue
+				}
+				r := e.rootOf(st.Addr)
+				if r.fresh {
+					continue
+				}
+				tmp := map[string]bool{}
+				e.storeModsRoot(r, tmp, nil)
+				for k := range tmp {
+					if e.immutable[k] {
+						return fmt.Errorf("%s: field declared immutable (%s) is written in %s outside the allocating function", e.fset.Position(st.Pos()), k, fn.String())
+					}
+				}
+			}
 		}
 	}
 	return nil
